@@ -47,7 +47,7 @@ MANIFEST = {
             "only the listed inputs — that part is covered only by the differential oracle.",
 }
 
-N_QUICK = 20
+N_QUICK = 12
 N_THOROUGH = 500
 
 
@@ -123,11 +123,13 @@ def run_cli(veryl, suite, root, tag, order=None, only=None, reuse=True, cpu=None
         cmd += ["taskset", "-c", str(cpu)]
     cmd += [veryl, "test", "--format", "json", "--backend", o["backend"], "--seed", "1"]
     if o["four_state"]:
-        cmd.append("--four-state")
+        cmd.append("--4state")
     if o["wave"]:
         cmd.append("--wave")
     env = {"VERYL_VERIF_CACHE_TRACE": "1", "VERYL_AOT_CACHE_DIR": os.path.join(d, "aotcache"),
-           "NO_COLOR": "1"}
+           "NO_COLOR": "1",
+           # the cc backend's background compile + hot swap is C33's subject; compile synchronously
+           "VERYL_AOT_C_ASYNC": "0"}
     if not reuse:
         env["VERYL_DUT_REUSE"] = "0"
     if min_bytes is not None:
@@ -213,7 +215,8 @@ def vcd_diff(a, b):
     for k in diffs:
         xa, xb = a.get(k), b.get(k)
         is_clk_port = k.split(".")[-1] == "clk" and k.count(".") >= 2
-        if is_clk_port and xa is not None and xb is not None and len(xa) == 1 and len(xb) > 1:
+        # constant (0, or x in 4-state mode) in the shared run, whatever the reference shows
+        if is_clk_port and xa is not None and xb is not None and len(xa) == 1 and xa[0][1] in ("0", "x"):
             continue
         other.append(k)
     if not other:
@@ -488,7 +491,7 @@ def run(tier, seed, replay):
             return i, out, hb, hs
 
         results = [None] * len(suites)
-        with ThreadPoolExecutor(max_workers=max(2, C.NCPU // 2)) as ex:
+        with ThreadPoolExecutor(max_workers=max(2, C.NCPU)) as ex:
             for i, out, hb, hs in ex.map(work, range(len(suites))):
                 results[i] = (out, hb, hs)
 
